@@ -92,10 +92,7 @@ func c08(c *Ctx) {
 		c.R.Harness(err.Error())
 		return
 	}
-	bases := []int{1 + int(c.Seed)%4}
-	if c.Thorough() {
-		bases = []int{0, 1, 2, 3, 4}
-	}
+	bases := []int{0, 1, 2, 3, 4} // every base_path class in both tiers (quick thins values, not bases)
 	var units []*routeUnit
 	lit := 0
 	// reuse C03's unit builder but keep explicit-path sub-catalogues
